@@ -1426,6 +1426,52 @@ func (e *Engine) compare(op token.Token, x, y Val, xt types.Type) (Val, string) 
 		if (op == token.NEQ || op == token.LSS || op == token.GTR) && a.Equal(b) {
 			return boolConst(false), ""
 		}
+		// a value with a single undetermined bit (x & 0x20) compared with a
+		// constant: canonical form is the comparison with the bit-clear value,
+		// so that  x&m == m  and  x&m != 0  are the same condition
+		if (op == token.EQL || op == token.NEQ) && xt != nil && (oka != okb) {
+			if w, signed, isInt := intTypeInfo(xt, e.WordBits); isInt {
+				v, k := a, cb
+				if oka {
+					v, k = b, ca
+				}
+				if k.IsInt() {
+					bv := e.toBV(v, w, signed)
+					free := -1
+					n := 0
+					for i, bit := range bv.Bits {
+						if bit.Kind != '0' && bit.Kind != '1' {
+							free = i
+							n++
+						}
+					}
+					if n == 1 {
+						k0 := new(big.Int)
+						for i, bit := range bv.Bits {
+							if bit.Kind == '1' {
+								k0.SetBit(k0, i, 1)
+							}
+						}
+						k1 := new(big.Int).SetBit(new(big.Int).Set(k0), free, 1)
+						kk := new(big.Int).Set(k.Num())
+						if !signed || kk.Sign() >= 0 {
+							switch {
+							case kk.Cmp(k0) == 0:
+								return &BoolVal{Op: ops, A: v, B: formRat(new(big.Rat).SetInt(k0))}, ""
+							case kk.Cmp(k1) == 0:
+								flip := "!="
+								if op == token.NEQ {
+									flip = "=="
+								}
+								return &BoolVal{Op: flip, A: v, B: formRat(new(big.Rat).SetInt(k0))}, ""
+							default:
+								return boolConst(op == token.NEQ), ""
+							}
+						}
+					}
+				}
+			}
+		}
 		return &BoolVal{Op: ops, A: a, B: b}, ""
 	case *BoolVal:
 		b, ok := y.(*BoolVal)
